@@ -550,6 +550,17 @@ func (e *Env) evalCall(x *Expr) SVal {
 			e.errf(x, "old() not available here")
 		}
 		return e.withState(e.old).eval(x.Args[0])
+	case "zero": // zero(T): the zero value of Go type T (also of a type parameter)
+		T := e.typeArg(x.Args[0])
+		if e.subst != nil {
+			if tp, ok := T.(*types.TypeParam); ok {
+				if r, ok := e.subst[tp.Obj().Name()]; ok {
+					T = r
+				}
+			}
+		}
+		T = t.resolve(T)
+		return SVal{S: t.zero(T), T: T, Sort: t.sortOf(T)}
 	case "len", "cap":
 		v := e.eval(x.Args[0])
 		if v.Sort == "Slice" {
